@@ -37,26 +37,45 @@ func H_bf128_add() {
 }
 
 // H_bf128_mul_left_basis: Mul(a, X^k) == a*X^k mod f for k = 0..127, a fully symbolic.
+// Stated inductively so that every query stays shallow: Mul(a, X^0) == a and
+// Mul(a, X^(k+1)) == X * Mul(a, X^k) mod f; together (induction on k) these give
+// Mul(a, X^k) == specXtime^k(a). k = 0..63 are additionally checked against the unrolled
+// specification directly.
 func H_bf128_mul_left_basis() {
 	a := verifElem()
 	verifReach("bf128_mul_left_basis")
-	want := [2]uint64{a[0], a[1]}
-	for k := 0; k < 128; k++ {
+	prev := a.Mul(basis(0))
+	verifAssert("Mul.a_times_X0", prev[0] == a[0] && prev[1] == a[1])
+	direct := [2]uint64{a[0], a[1]}
+	for k := 1; k < 128; k++ {
 		r := a.Mul(basis(k))
-		verifAssert("Mul.a_times_Xk", (r[0]^want[0])|(r[1]^want[1]) == 0)
-		want = specXtime(want)
+		want := specXtime([2]uint64{prev[0], prev[1]})
+		verifAssert("Mul.a_times_Xk.step", (r[0]^want[0])|(r[1]^want[1]) == 0)
+		if k < 64 {
+			direct = specXtime(direct)
+			verifAssert("Mul.a_times_Xk.direct", (r[0]^direct[0])|(r[1]^direct[1]) == 0)
+		}
+		prev = r
 	}
 }
 
-// H_bf128_mul_right_basis: Mul(X^k, b) == b*X^k mod f for k = 0..127, b fully symbolic.
+// H_bf128_mul_right_basis: Mul(X^k, b) == b*X^k mod f for k = 0..127, b fully symbolic
+// (same inductive formulation).
 func H_bf128_mul_right_basis() {
 	b := verifElem()
 	verifReach("bf128_mul_right_basis")
-	want := [2]uint64{b[0], b[1]}
-	for k := 0; k < 128; k++ {
+	prev := basis(0).Mul(b)
+	verifAssert("Mul.X0_times_b", prev[0] == b[0] && prev[1] == b[1])
+	direct := [2]uint64{b[0], b[1]}
+	for k := 1; k < 128; k++ {
 		r := basis(k).Mul(b)
-		verifAssert("Mul.Xk_times_b", (r[0]^want[0])|(r[1]^want[1]) == 0)
-		want = specXtime(want)
+		want := specXtime([2]uint64{prev[0], prev[1]})
+		verifAssert("Mul.Xk_times_b.step", (r[0]^want[0])|(r[1]^want[1]) == 0)
+		if k < 64 {
+			direct = specXtime(direct)
+			verifAssert("Mul.Xk_times_b.direct", (r[0]^direct[0])|(r[1]^direct[1]) == 0)
+		}
+		prev = r
 	}
 }
 
